@@ -68,6 +68,58 @@ func runC13(cases string, res *Result) {
 		case o1 != o2:
 			res.add(Finding{Kind: "oracle", Where: "render", Case: c, Expected: hx(o2), Observed: hx(o1),
 				Detail: "output with dashes differs from the output of the same template with the dashes removed and the whitespace deleted by hand"})
+		default:
+			// the same template beyond the size at which the engine switches tokenizers (a comment adds nothing)
+			o3, e3 := lexRender(src + c13Pad)
+			res.Evaluations++
+			if e3 != nil {
+				res.add(Finding{Kind: "oracle", Where: "render-large", Case: c, Expected: hx(o2), Detail: "in a template of more than 4096 bytes the dashes change whether it parses/renders: " + e3.Error()})
+			} else if o3 != o2 {
+				res.add(Finding{Kind: "oracle", Where: "render-large", Case: c, Expected: hx(o2), Observed: hx(o3),
+					Detail: "in a template of more than 4096 bytes (a 4200-byte comment appended) the output with dashes differs from the hand-trimmed one"})
+			}
 		}
 	})
+	c13ManySiblings(res)
+}
+
+var c13Pad = "{#" + strings.Repeat("p", 4200) + "#}"
+
+// many sibling blocks, with a dash on the opening tag, the closing tag, both, and on the middle tag: the dash
+// "never changes whether a template parses", however many blocks there are (nothing is nested here)
+func c13ManySiblings(res *Result) {
+	const n = 10050
+	type form struct{ name, plain, dashed string }
+	forms := []form{
+		{"if, dash on the closing tag", "{% if a %}x{% endif %}", "{% if a %}x{%- endif %}"},
+		{"if, dash on the opening tag", "{% if a %}x{% endif %}", "{%- if a %}x{% endif %}"},
+		{"if, dashes everywhere", "{% if a %}x{% else %}y{% endif %}", "{%- if a -%}x{%- else -%}y{%- endif -%}"},
+		{"for, dash on the closing tag", "{% for i in one %}x{% endfor %}", "{% for i in one %}x{%- endfor %}"},
+		{"for, right-hand dashes", "{% for i in one %}x{% endfor %}", "{% for i in one -%}x{% endfor -%}"},
+		{"apply, dash on the closing tag", "{% apply upper %}x{% endapply %}", "{% apply upper %}x{%- endapply %}"},
+	}
+	for _, f := range forms {
+		render := func(unit string) (string, error) {
+			eng := lexEngine()
+			if err := eng.RegisterString("t", strings.Repeat(unit, n)); err != nil {
+				return "", err
+			}
+			return eng.Render("t", map[string]interface{}{"a": true, "one": []interface{}{1}})
+		}
+		res.Hist["construct:many-siblings"]++
+		res.Evaluations += 2
+		o1, e1 := render(f.plain)
+		o2, e2 := render(f.dashed)
+		c := Case{"stream": "many-siblings", "form": f.name, "unit": f.dashed, "count": n}
+		switch {
+		case e1 != nil:
+			res.Notes = append(res.Notes, "many-siblings: "+f.name+": the dash-free template does not render: "+e1.Error())
+		case e2 != nil:
+			res.add(Finding{Kind: "oracle", Where: "many-siblings: " + f.name, Case: c, Expected: "renders like " + fmt.Sprint(n) + " x " + f.plain,
+				Detail: "dashes change whether the template parses/renders: " + e2.Error()})
+		case o1 != o2:
+			res.add(Finding{Kind: "oracle", Where: "many-siblings: " + f.name, Case: c, Expected: hx(o1[:min(len(o1), 40)]), Observed: hx(o2[:min(len(o2), 40)]),
+				Detail: "no whitespace stands next to the dashes, yet the output differs"})
+		}
+	}
 }
